@@ -49,6 +49,10 @@ partial def jProg (j : Json) : Except String Comb := do
   | "csv", 3 => pure (.csv (← jProg a[1]!) (← jNat a[2]!))
   | "wrapped", 3 => pure (.wrapped (← jProg a[1]!) (← a[2]!.getBool?))
   | "many", 2 => pure (.many (← jProg a[1]!))
+  | "textSeq", 3 => pure (.textSeq (← jNats a[1]!) (← a[2]!.getBool?))
+  | "restOfChunk", 1 => pure .restOfChunk
+  | "ifTok", 4 => pure (.ifTok (← jNats a[1]!) (← jProg a[2]!) (← jProg a[3]!))
+  | "tableLoop", 4 => pure (.tableLoop (← jNats a[1]!) (← jProg a[2]!) (← a[3]!.getBool?))
   | _, _ => throw ("prog " ++ k)
 
 def showRes (r : Res) : String :=
